@@ -158,6 +158,28 @@ def liftStr (m : Machine) (iv : String) : String :=
     | .err _ => "err"
     | .panic s => s!"panic {s}"
 
+/-- results fed back into the pair API (see the harness' `thru_str`) -/
+def thruStr (m : Machine) (iv : String) : String :=
+  withIv iv fun iv =>
+    match m.liftover iv with
+    | .ok none => "none"
+    | .ok (some ps) => "some " ++ join " | " (ps.map (fun p =>
+        let a := match p.lift p.ref.start with | some c => coordStr c | none => "none"
+        let b := match p.lift p.ref.stop with | some c => coordStr c | none => "none"
+        let again := match p.clamp iv with
+          | .ok p2 => pairStr p2
+          | .err e => (pairErrStr e).replace " " "_"
+          | .panic _ => "panic"
+        s!"{pairStr p} {a} {b} {again}"))
+    | .err _ => "err"
+    | .panic s => s!"panic {s}"
+
+def liftthruReply (src : List Ev) (ivs : List String) : String :=
+  let b := build validUtf8 src
+  match b with
+  | .ok m => join " ; " (buildStr b :: ivs.map (thruStr m))
+  | _ => buildStr b
+
 def liftoverReply (src : List Ev) (ivs : List String) : String :=
   let b := build validUtf8 src
   match b with
@@ -226,6 +248,8 @@ def handle (line : String) : String :=
   | ["build", src] => match srcOf src with | some s => buildStr (build validUtf8 s) | none => "badreq"
   | ["liftover", src, ivs] =>
     (match srcOf src with | some s => liftoverReply s (ivs.splitOn ",") | none => "badreq")
+  | ["liftthru", src, ivs] =>
+    (match srcOf src with | some s => liftthruReply s (ivs.splitOn ",") | none => "badreq")
   | ["ops", src, ops] =>
     -- `reopen` (into_inner + Reader::new) is the identity on the model's reader state: the cursor is the stream's
     (match srcOf src, ((ops.splitOn ",").filter (· != "reopen")).mapM opOf with
